@@ -3,6 +3,7 @@ mod gen;
 mod hung;
 mod node;
 mod qual;
+mod rooms;
 mod sched;
 mod solve;
 mod tree;
@@ -102,6 +103,8 @@ fn main() {
             arg(&args, "--rooms", 2usize),
             &outdir,
         ),
+        "rooms" => rooms::run(arg(&args, "--seed", 1u64), arg(&args, "--count", 200usize), shards, &outdir),
+        "probe" => cli::probe(&args),
         other => {
             eprintln!("unknown subcommand {}", other);
             std::process::exit(2);
